@@ -230,7 +230,7 @@ class Interp:
             env[p["n"]] = v
             return True
         if k == "ref":
-            return self.match(p["p"], v, env)
+            return self.match(p["p"], v.get() if isinstance(v, ElemRef) else v, env)
         if k == "tup":
             if not isinstance(v, tuple):
                 raise Unrecognised("tuple pattern on non-tuple %r" % (v,))
